@@ -738,11 +738,11 @@ theorem inv2_runCb_other (s : Stack) (cb : Cb) (hcb : isSvcExpiry cb = false) (h
       · exact hi
       · split
         · exact inv2_of_frames ((disc_stepOffer _ _ _ _).trans (disc_cancelTimer _ _ _))
-            ((svcT_stepOffer _ _ _ _).trans (svcT_cancelTimer_sleep _ _)) hi
+            ((svcT_stepOffer _ _ _ _).trans (svcT_cancelTimer_sleep _ _ _)) hi
         · exact inv2_of_frames ((disc_stepFind _ _ _).trans (disc_cancelTimer _ _ _))
-            ((svcT_stepFind _ _ _).trans (svcT_cancelTimer_sleep _ _)) hi
+            ((svcT_stepFind _ _ _).trans (svcT_cancelTimer_sleep _ _ _)) hi
         · exact inv2_of_frames ((disc_stepSubscribe _ _ _).trans (disc_cancelTimer _ _ _))
-            ((svcT_stepSubscribe _ _ _).trans (svcT_cancelTimer_sleep _ _)) hi
+            ((svcT_stepSubscribe _ _ _).trans (svcT_cancelTimer_sleep _ _ _)) hi
 
 theorem inv2_step (s s' : Stack) (e : Event) (h : s.step e = some s') (hi : Inv2 s) : Inv2 s' := by
   cases e with
